@@ -750,8 +750,15 @@ def gen_icg(rng):
     raise RuntimeError('no usable ICG draw')
 
 
+MEAS_SEQ = {}
+
+
 def gen_measure(rng, cls):
     binary = rng.random() < 0.5
+    MEAS_SEQ[cls] = MEAS_SEQ.get(cls, 0) + 1
+    forced = MEAS_SEQ[cls] % 2 == 1      # every other case of a class: two levels (so that A -> 1-A applies) and rows whose
+    if forced:                            # outcome is missing while the exposure is observed (counted by nothing but `n`)
+        binary = True
     nlev = 2 if binary else rng.choice([3, 4])
     codes = [0, 1] if binary else rng.sample(range(0, 9), nlev)
     rows = []
@@ -764,6 +771,9 @@ def gen_measure(rng, cls):
         for j in rng.sample([0, 1, 2], rng.randint(1, 2)):
             r[j] = np.nan
         rows.append(r)
+    if forced:
+        for _ in range(rng.randint(3, 9)):
+            rows.append([float(rng.choice(codes)), np.nan, rng.randint(1, 400) / 4.0])
     rng.shuffle(rows)
     df = pd.DataFrame(rows, columns=['e', 'y', 't'])
     df['_rid_'] = np.arange(len(df))
